@@ -4,7 +4,7 @@ from gen_structure import *  # noqa
 PROP_FILES = ["Structure/Properties_C07.v"]
 MANIFEST = dict(
     technique="Coq proof (case analysis of the decision ladders against a declarative clause list; list lemmas for sibling and group rules) on a Gallina model of the scanner's placement checks and StructureChecker::check_siblings, glob/regex answers entering as oracle columns; tied by differential execution on real trees of names through the library pipeline and the real CLI",
-    text="Theorems C07_file_at_most_once, C07_entry_at_most_once (directories too, fixes/D48), C07_only_walked_entries_reported, C07_file_exact / C07_dir_exact (the reported violation of an entry is exactly forbidden_spec / forbidden_dir_spec, the documented ladder: first applicable clause), C07_count_exclude_does_not_exempt (fixes/D49), C07_project_root_not_placed (fixes/D51), C07_roots_walked_are_requested / C07_roots_walks_disjoint / C07_roots_cover (several scan roots, fixes/D50), C07_scan_exact (a whole scan of a tree, any processing order, reports exactly the specification - no side condition since every site matches the normalised path), C07_lists_combine_by_or, C07_naming_only_if_permitted, C07_directed_sibling, C07_group, C07_rule_consulted_is_explains hold without bounds. The tie: generated trees of names (extensions, dotfiles, multi-dot, non-ASCII) x global and per-scope allow/deny lists, naming regexes, directed and group sibling rules, overlapping scopes; `check --format json` (violation_type, triggering_rule) and the library pipeline compared with the extracted model and with the Coq spec; the consulted rule compared with the one `explain` names.",
+    text="Theorems C07_file_at_most_once, C07_entry_at_most_once (directories too, fixes/D48), C07_only_walked_entries_reported, C07_file_exact / C07_dir_exact (the reported violation of an entry is exactly forbidden_spec / forbidden_dir_spec, the documented ladder: first applicable clause), C07_count_exclude_does_not_exempt (fixes/D49), C07_project_root_not_placed (fixes/D51), C07_roots_walked_are_requested / C07_roots_walks_disjoint / C07_roots_cover (several scan roots, fixes/D50), C07_scan_exact (a whole scan of a tree, any processing order, reports exactly the specification - no side condition since every site matches the normalised path), C07_lists_combine_by_or, C07_naming_only_if_permitted, C07_directed_sibling, C07_group, C07_rule_consulted_is_explains, C07_sibling_rule_is_explains / C07_sibling_none_without_rule / C07_sibling_entries_of_named_rule (the sibling entries applied in a directory are exactly those of the rule explain names, the last declared match; they do not accumulate over superseded rules, fixes/D81) hold without bounds. The tie: generated trees of names (extensions, dotfiles, multi-dot, non-ASCII) x global and per-scope allow/deny lists, naming regexes, directed and group sibling rules, overlapping scopes; `check --format json` (violation_type, triggering_rule) and the library pipeline compared with the extracted model and with the Coq spec; the consulted rule compared with the one `explain` names.",
     note="Trusted: Coq kernel, extraction, harness sgv-structure (oracle columns computed with the real globset / regex objects of the real configuration), python generators. Not modelled: regex and glob semantics, non-UTF-8 file names. Known finding K07_file_root_sibling (D52): a FILE given as scan root is scanned alone and its companions are reported missing (C07_directed_sibling_among_visible_refuted / C07_directed_sibling_modulo_known); the witness is re-run on the real CLI by every check.",
     ref="5 (C07)")
 
@@ -20,7 +20,7 @@ def run(ctx):
     run_structure(ctx, "C07", PROP_FILES, FLAVOURS, 2000 if quick else 12000, 4 if quick else 5, 0, nontrivial)
     ctx.cov["rule"] = ("seeded generator: real trees of names (extensions, dotfiles, `foo.`, `..x`, multi-dot, non-ASCII, spaces) x [structure] configurations with global allow or deny lists "
                        "(extensions, file-name patterns, path patterns, directory-only patterns, deny_dirs), 0-4 rules with overlapping scopes carrying allow/deny lists, naming regexes, "
-                       "directed and group sibling rules, count_exclude / scanner.exclude / command-line -x, name lists whose literal head coincides with the start of the path (t*, t*.rs), requests of several scan roots (22%); run through the library pipeline with both back-ends, every 4th also through `sgcli check` + `explain`; 1500 arbitrary scan-root requests through resolve_scan_paths; the trees of 40 cases with directory name lists as projects of their own under four spellings of the project root. "
+                       "directed and group sibling rules (member and companion templates with a path separator such as __tests__/{stem}.test.tsx, with complete, incomplete and orphan groups; later rules whose scope overlaps a rule with sibling entries), count_exclude / scanner.exclude / command-line -x, name lists whose literal head coincides with the start of the path (t*, t*.rs), requests of several scan roots (22%); run through the library pipeline with both back-ends, every 4th also through `sgcli check` + `explain`; 1500 arbitrary scan-root requests through resolve_scan_paths; the trees of 40 cases with directory name lists as projects of their own under four spellings of the project root. "
                        "non-trivial = distinct case with at least one placement list or sibling rule AND at least one placement/sibling violation reported")
     ctx.cov["trusted_base"] = TRUSTED_COMMON + [
         "oracle columns: every glob / regex answer (per list, per name and per path) is computed by sgv-structure with the real compiled objects and handed to the model as data",
